@@ -99,7 +99,13 @@ func checkC10(c *Ctx) {
 	if authFn != nil && len(authFn.AnonFuncs) == 1 {
 		authInner = authFn.AnonFuncs[0]
 	}
-	c.traceRule("auth-fails-closed", "adminapi.NewMux/auth", authInner, c.handlerSpec("AuthToken", "Authorization"),
+	authSpec := c.handlerSpec("AuthToken", "Authorization", "Bearer ")
+	// a predicate extracted from the middleware (bearerTokenMatches(header, token)) is looked into
+	authSpec.Expand = func(callee *ssa.Function, _ ssa.CallInstruction) bool {
+		pk := fnPkg(callee)
+		return pk != nil && strings.HasSuffix(pk.Pkg.Path(), "/internal/adminapi") && callee.Parent() == nil && callee.Object() != nil && !callee.Object().Exported()
+	}
+	c.traceRule("auth-fails-closed", "adminapi.NewMux/auth", authInner, authSpec,
 		"next is reached only with no token configured or Authorization == Bearer+token; otherwise 401 and nothing else",
 		func(t *Trace) string {
 			ni := t.Index("next", 0)
